@@ -546,6 +546,23 @@ func (cs *Contracts) resolveType(p *packages.Package, src string, file string, l
 		}
 	}
 	if e, err := parser.ParseExpr(src); err == nil {
+		// slices and string-keyed maps of a named type
+		if at, ok := e.(*ast.ArrayType); ok && at.Len == nil {
+			if et := lookupTypeName(p, at.Elt); et != nil {
+				return types.NewSlice(et)
+			}
+		}
+		if mt, ok := e.(*ast.MapType); ok {
+			kt, vt := lookupTypeName(p, mt.Key), lookupTypeName(p, mt.Value)
+			if vt == nil {
+				if it, ok := mt.Value.(*ast.InterfaceType); ok && (it.Methods == nil || len(it.Methods.List) == 0) {
+					vt = types.NewInterfaceType(nil, nil)
+				}
+			}
+			if kt != nil && vt != nil {
+				return types.NewMap(kt, vt)
+			}
+		}
 		star := false
 		if se, ok := e.(*ast.StarExpr); ok {
 			star = true
